@@ -96,7 +96,7 @@ def IGMP.groupRecord (mode group : Nat) : Bytes :=
 def IGMP.reportWith (cksum : Nat) (groups : List Nat) : Bytes :=
   let mode := if groups.length = 1 then 4 else 2
   beBytes 1 0x22 ++ beBytes 1 0 ++ beBytes 2 cksum ++ beBytes 2 0 ++ beBytes 2 groups.length ++
-    groups.flatMap (IGMP.groupRecord mode)
+    groups.flatMap (fun g => IGMP.groupRecord mode g)
 
 def IGMP.report (groups : List Nat) : Bytes :=
   IGMP.reportWith (rfc1071 (IGMP.reportWith 0 groups)) groups
